@@ -239,12 +239,12 @@ def concretizer(kind, seed=0, budget=8000):
     """concretize(model, obligation_name) for pyvc: find a real input violating the executable contract (cached per run)"""
     def conc(model, name):
         if kind not in _search_cache:
-            fn = {"collect_quantity": search_collect_quantity, "gate": search_gate, "convert": search_convert}[kind]
+            fn = {"collect_quantity": search_collect_quantity, "gate": search_gate, "convert": search_convert, "approx": search_approx}[kind]
             _search_cache[kind] = fn(seed, budget)
         t, why, n = _search_cache[kind]
         if t is None:
             return {"reproduced": False, "script": None, "output": f"no disagreement among {n} enumerated real inputs"}
-        if kind in ("gate", "convert"):
+        if kind in ("gate", "convert", "approx"):
             script = (f"from vf.contracts.refimpl import replay_{kind}\n" f"replay_{kind}({t!r})\n")
         else:
             script = ("from vf.contracts.refimpl import replay_tree\n" f"replay_tree({kind!r}, {seed}, {n})\n")
@@ -564,14 +564,256 @@ def generation_fallback(report, kind, unit, err, seed=0, budget=8000):
     with that input (bounded search; a clean search decides nothing)."""
     from ..core import Ob, REFUTED
     report.fault(f"VC generation failed: {err}")
-    fn = {"collect_quantity": search_collect_quantity, "gate": search_gate, "convert": search_convert}[kind]
+    fn = {"collect_quantity": search_collect_quantity, "gate": search_gate, "convert": search_convert, "approx": search_approx}[kind]
     t, why, n = fn(seed, budget)
     if t is None:
         report.add_bounded(f"fallback search of the executable {kind} contract after a generation failure", f"{n} enumerated real inputs", n, True)
         return
-    if kind in ("gate", "convert"):
+    if kind in ("gate", "convert", "approx"):
         script = f"from vf.contracts.refimpl import replay_{kind}\nreplay_{kind}({t!r})\n"
     else:
         script = f"from vf.contracts.refimpl import replay_tree\nreplay_tree({kind!r}, {seed}, {n})\n"
     report.add(Ob(f"{unit}/executable-contract/{kind}/first-disagreement", REFUTED, "exec-search", 0.0, f"{why} (found after a VC generation failure: {err})", str(t),
                   {"reproduced": True, "script": script, "inputs": str(t)}))
+
+
+# ------------------------------------------------------------------------------------------------ C06 reference
+class RefUnits(Exception):
+    pass
+
+
+class RefValue(Exception):
+    pass
+
+
+def lit_any(v):
+    v = sp.sympify(v)
+    return v in (S.Infinity, S.NegativeInfinity, S.NaN) or v.is_zero is True and v.is_number
+
+
+def ref_collect_expression(e):
+    return _ref_ce(e)[1]
+
+
+def _ref_ce(e):
+    """(collected value, dimension vector) of e by combining declared leaf dimensions (C06); raises RefUnits / RefValue as the
+    statement says.  The value is only used to recognise terms that are literally 0 / +-oo / NaN."""
+    from sympy.functions.elementary.miscellaneous import MinMaxBase
+    from sympy.physics.units import Quantity as SymQ
+    e = sp.sympify(e)
+    def anyval(v):
+        return lit_any(v.scale_factor) if isinstance(v, SymQ) else lit_any(v)
+
+    def num(v):
+        return v.scale_factor if isinstance(v, SymQ) else v
+    if hasattr(e, "dimension"):
+        return e, dim_vec(e.dimension)
+    if isinstance(e, sp.Mul):
+        parts = [_ref_ce(a) for a in e.args]  # errors of sub-terms are reported even when a factor makes the product 0/oo/NaN
+        numq = S.One
+        for a, (v, d) in zip(e.args, parts):
+            if isinstance(v, SymQ) or (a.is_number and not hasattr(a, "dimension")):
+                numq = numq * num(v)
+        if lit_any(numq):
+            return numq, {}
+        dim = {}
+        val = S.One
+        for a, (v, d) in zip(e.args, parts):
+            val = val * num(v)
+            if isinstance(v, SymQ) and anyval(v):
+                continue
+            if d is None:
+                return val, None
+            for k, x in d.items():
+                dim[k] = dim.get(k, 0) + x
+        if lit_any(val):
+            return val, None  # the product is literally 0/oo/NaN: any dimension is acceptable
+        return val, {k: x for k, x in dim.items() if x != 0}
+    if isinstance(e, sp.Pow):
+        xv, xd = _ref_ce(e.exp)
+        if xd:
+            raise RefValue("dimensional exponent")
+        if xd is None:
+            raise OutOfDomain("exponent of undetermined dimension")
+        if sp.sympify(xv) in (S.Infinity, S.NegativeInfinity, S.NaN):
+            raise OutOfDomain("infinite exponent")
+        bv, bd = _ref_ce(e.base)
+        xv = num(xv)
+        if bd is None:
+            return bv ** xv, None
+        return bv ** xv, {k: x * xv for k, x in bd.items() if x * xv != 0}
+    if isinstance(e, (sp.Add, MinMaxBase)):
+        parts = [_ref_ce(a) for a in e.args]
+        first = None
+        nums = [(a, p) for a, p in zip(e.args, parts) if a.is_number and not hasattr(a, "dimension") and not isinstance(a, SymQ)]
+        if not all(anyval(p[0]) for a, p in nums):
+            first = {}
+        numset = [a for a, _ in nums]
+        # the code looks at numbers, then quantities, then the rest; equivalence is transitive, so the order does not change the verdict
+        rest = [(a, p) for a, p in zip(e.args, parts) if a not in numset]
+        rest.sort(key=lambda ap: 0 if isinstance(ap[1][0], SymQ) else 1)
+        for a, (v, d) in rest:
+            if anyval(v) or d is None:
+                continue
+            if first is None:
+                first = d
+            elif not dims_equiv(first, d):
+                raise RefUnits("inequivalent terms")
+        # every term is 0/oo/NaN: any dimension is acceptable (None = unconstrained)
+        return e.func(*[num(v) for v, _ in parts]), first
+    if isinstance(e, sp.Abs):
+        v, d = _ref_ce(e.args[0])
+        return sp.Abs(v), d
+    if isinstance(e, sp.Derivative):
+        f = e.expr
+        d = dict(dim_vec(f.func.dimension)) if hasattr(f.func, "dimension") else {}
+        for v, n in e.variable_count:
+            for k, x in _ref_ce(v)[1].items():
+                d[k] = d.get(k, 0) - x * n
+        return e, {k: x for k, x in d.items() if x != 0}
+    if isinstance(e, sp.Function):
+        vals = [_ref_ce(a)[0] for a in e.args]
+        return e.func(*vals), (dim_vec(e.func.dimension) if hasattr(e.func, "dimension") else {})
+    return e, {}
+
+
+def check_collect_expression(e):
+    from symplyphysics.core.dimensions import collect_expression_and_dimension as real
+    from symplyphysics.core.errors import UnitsError
+    try:
+        want = ref_collect_expression(e)
+    except (RefUnits, RefValue) as r:
+        want = r
+    except Exception:
+        return None
+    try:
+        got = real(e)
+    except UnitsError as x:
+        got = RefUnits(str(x))
+    except ValueError as x:
+        got = RefValue(str(x))
+    except Exception as x:
+        return f"real raised {type(x).__name__}: {x}"
+    if isinstance(want, Exception):
+        if not isinstance(got, Exception):
+            return f"contract reports {type(want).__name__} ({want}) but real returned {got}"
+        return None
+    if isinstance(got, Exception):
+        return f"contract infers {want} but real raised {type(got).__name__}: {got}"
+    ge, gd = got
+    if want is not None and not dims_equiv(dim_vec(gd), want):
+        return f"dimension {dim_vec(gd)} != {want}"
+    # value-equal: compare input and returned expression with quantities replaced by scale factors at a random valuation
+    from sympy.physics.units import Quantity as SymQuantity
+    rng = random.Random(str(e))
+    def numeric(x):
+        x = sp.sympify(x)
+        x = x.xreplace({q: q.scale_factor for q in x.atoms(SymQuantity)})
+        syms = sorted(x.free_symbols, key=str)
+        return x, syms
+    a, sa = numeric(e)
+    b, sb = numeric(ge)
+    syms = sorted(set(sa) | set(sb), key=str)
+    pt = {s_: sp.Rational(rng.randint(2, 9), rng.randint(1, 5)) for s_ in syms}
+    try:
+        va, vb = complex(sp.N(a.xreplace(pt).doit())), complex(sp.N(b.xreplace(pt).doit()))
+    except Exception:
+        return None
+    if va != va or vb != vb:
+        return None
+    if abs(va - vb) > 1e-9 * max(1.0, abs(va)):
+        return f"returned expression {ge} has value {vb} where the input has {va}"
+    return None
+
+
+def leaves_expression():
+    u = _units()
+    from symplyphysics import Quantity, Symbol, Function
+    x = Symbol("x", u.length)
+    t = Symbol("t", u.time)
+    m = Symbol("m", u.mass)
+    k = Symbol("k")  # dimensionless
+    f = Function("f", [t], u.length)
+    plain = sp.Symbol("p")
+    return [S.Zero, S.One, sp.Integer(2), sp.Integer(-1), sp.Rational(1, 2), sp.Float(2.5), oo, x, t, m, k, f(t), plain,
+            Quantity(0), Quantity(0, dimension=u.length), Quantity(2 * u.meter), Quantity(3 * u.second), Quantity(5), u.meter, u.second,
+            sp.Derivative(f(t), t), x / t, x * Quantity(2 * u.meter)]
+
+
+def search_collect_expression(seed=0, budget=6000, depth=2):
+    rng = random.Random(seed)
+    n = 0
+    for tr in trees(leaves_expression(), depth, rng, budget):
+        n += 1
+        try:
+            why = check_collect_expression(tr)
+        except Exception:
+            continue
+        if why:
+            return tr, why, n
+    return None, None, n
+
+
+# ------------------------------------------------------------------------------------------------ C08 reference
+def approx_pool():
+    u = _units()
+    from symplyphysics import Quantity
+    ops = [Quantity(5 * u.meter), Quantity(5 * u.second), 5, Quantity(5.004 * u.meter), Quantity(5.006 * u.meter), Quantity(1000.5 * u.meter), Quantity(1 * u.kilometer),
+           Quantity(0), Quantity((1 + 2 * sp.I) * u.meter), Quantity((1 + 2.001 * sp.I) * u.meter), Quantity((1 + 2.1 * sp.I) * u.meter), 1000.5, Quantity(500 * u.centimeter)]
+    tols = [(None, None), (0, 1e-6), (0.01, None), (None, 1.0), (0.0, None)]
+    dims = [None, u.length, u.time]
+    return ops, tols, dims
+
+
+def ref_assert_equal(l, r, rt, at, dim):
+    """True (passes) / False (raises), from the statement of C08"""
+    from symplyphysics import Quantity
+    rq = r if isinstance(r, Quantity) else Quantity(r, dimension=dim)
+    lq = l if isinstance(l, Quantity) else Quantity(l)
+    if ref_gate(lq, rq) != "ok":
+        return False
+    rho = 0.001 if rt is None else rt
+    for part in (sp.re, sp.im):
+        a, b = float(part(lq.scale_factor)), float(part(rq.scale_factor))
+        alpha = abs(a * rho) if at is None else at
+        if not abs(a - b) <= max(rho * abs(b), alpha):
+            return False
+    return True
+
+
+def check_approx(i, j, k, m):
+    from symplyphysics.core.approx import assert_equal
+    ops, tols, dims = approx_pool()
+    l, r, (rt, at), dim = ops[i], ops[j], tols[k], dims[m]
+    try:
+        want = ref_assert_equal(l, r, rt, at, dim)
+    except Exception:
+        return None
+    try:
+        assert_equal(l, r, relative_tolerance=rt, absolute_tolerance=at, dimension=dim)
+        got = True
+    except Exception:
+        got = False
+    if got != want:
+        return f"assert_equal({l}, {r}, relative_tolerance={rt}, absolute_tolerance={at}, dimension={dim}) {'passed' if got else 'raised'}; the contract says it must {'pass' if want else 'fail'}"
+    return None
+
+
+def search_approx(seed=0, budget=0):
+    ops, tols, dims = approx_pool()
+    n = 0
+    for i in range(len(ops)):
+        for j in range(len(ops)):
+            for k in range(len(tols)):
+                for m in range(len(dims)):
+                    n += 1
+                    why = check_approx(i, j, k, m)
+                    if why:
+                        return (i, j, k, m), why, n
+    return None, None, n
+
+
+def replay_approx(key):
+    why = check_approx(*key)
+    assert why is None, why
+    print("contract holds on this input")
